@@ -579,8 +579,10 @@ fn execute_write_count(db: &core::Db, cypher: &str, params: &Params) -> ApiResul
         ));
     }
     let prepared = prepare(cypher).map_err(|e| ApiError::from_query_message(&e.to_string()))?;
-    let snapshot = db.snapshot();
+    // Take the writer lock first: the statement must read the state its own commit
+    // will be applied to, not a snapshot that another writer may still supersede.
     let mut txn = db.begin_write();
+    let snapshot = db.snapshot();
     let (_rows, write_count) = prepared
         .execute_mixed(&snapshot, &mut txn, params)
         .map_err(|e| ApiError::from_query_message(&e.to_string()))?;
